@@ -42,7 +42,7 @@ func c22RealLostNames(c *Ctx) c22LostNames {
 		l3Exc: map[string]c22LostExc{
 			"renameAliasesInExp$lit/Subquery.WithQuery": {
 				reason: "not a SHOW CREATE TABLE path and not observable: the dropped copy of the nested plan.Subquery differs from the original only in the table qualifiers of GetFields after the EXISTS-unnesting alias rename; " +
-					"those references are bound by column id (fix_exec_indexes getIdxId), and three probe queries with a conflicting alias inside a nested IN-subquery returned the right rows (design_notes/C22.md)",
+					"those references are bound by column id (fix_exec_indexes getIdxId), and five probe queries (conflicting alias with a nested IN-subquery, same column names on both sides, plain and inside a trigger body) returned the right rows (design_notes/C22.md)",
 			},
 			"Builder.buildAlterTableClause/PrimaryKeySchemaTarget.WithPrimaryKeySchema": {
 				reason: "dead branch: the only type implementing sql.PrimaryKeySchemaTarget is *plan.ShowCreateTable, and the scopes buildAlterTableClause iterates hold ALTER nodes only " +
@@ -82,7 +82,7 @@ func c22RealLostNames(c *Ctx) c22LostNames {
 				},
 			},
 		},
-		floors: [3]int{230, 6, 90},
+		floors: [3]int{230, 6, 95},
 	}
 }
 
@@ -254,6 +254,11 @@ func runC22Lost(c *Ctx, nm c22LostNames) {
 							break
 						}
 						pt := t.fn.Params[rs.copyOf].Type()
+						if c22IsInterface(pt) {
+							if ct := t.ctypes[rs.copyOf]; ct != nil {
+								pt = ct // a helper that takes the node through an interface (modifySchemaTarget), entered with the caller's type
+							}
+						}
 						nt := isNodeStruct(pt)
 						if nt == nil {
 							all = false
@@ -291,7 +296,7 @@ func runC22Lost(c *Ctx, nm c22LostNames) {
 					if !used && !a.bad {
 						sort.Strings(upd)
 						a.bad, a.pos = true, e.pos(x)
-						a.msg = fmt.Sprintf("%s: the result of %s is dropped. The method does not modify its receiver: it returns a fresh copy (of a plan.%s) with %s updated; "+
+						a.msg = fmt.Sprintf("%s: the result of %s is dropped. The callee does not modify the node it is given: it returns a fresh copy (of a plan.%s) with %s updated; "+
 							"dropping the copy loses the update", c22FnName(fn), calleeName, copyType.Obj().Name(), strings.Join(c22Uniq(upd), ", "))
 					} else if used && a.witness == "" {
 						a.witness = how
